@@ -126,6 +126,11 @@ func exprForms() []form {
 		{name: "splat-full-spaced", text: "l2[ * ] . a"}, {name: "splat-attr-after-trav", text: `o.a.*.b.c`}, {name: "splat-attr-after-call", text: `concat(l2, l2).*.a.0`},
 		{name: "splat-attr-after-paren", text: `(l2).*.a`}, {name: "splat-nested", text: `l3[*][*]`}, {name: "splat-attr-then-index", text: `l2.*.a[0]`},
 		{name: "legacy-index-attr", text: `l2.0.a`}, {name: "call-legacy-index", text: `concat(l, l).0`},
+		// postfix steps applied to a parenthesised expression (the parentheses are part of the construct's range)
+		{name: "paren-ref-attr", text: `(o.a).b`}, {name: "paren-var-index-attr", text: `(o)["a"].b`}, {name: "paren-var-index", text: `(l2)[0].a`},
+		{name: "paren-ref-attr-operand", text: `(o.a).b == 1`}, {name: "paren-paren-attr", text: `((o).a).b`}, {name: "paren-legacy-index", text: `(l).0`},
+		{name: "paren-call-index", text: `(concat(l, l))[0]`}, {name: "paren-spaced-attr", text: `( o.a ) . b`}, {name: "paren-index-expr", text: `(l)[n - 7]`},
+		{name: "unary-chain", text: `!!t`}, {name: "unary-chain-neg", text: `- -n`}, {name: "unary-mixed", text: `!(-n == 1)`},
 		{name: "paren", text: `(v)`}, {name: "paren-multi", text: "(\n  1\n  +\n  2\n)", multi: true},
 		{name: "heredoc", text: "<<EOT\nhello ${v}\n  é" + eacute + " x\nEOT", heredoc: true, multi: true},
 		{name: "heredoc-flush", text: "<<-EOT\n    a\n      b ${v}\n    EOT", heredoc: true, multi: true},
